@@ -37,6 +37,15 @@ def setNat [DecidableEq κ] (m : List (κ × Nat)) (x : κ) (n : Nat) : List (κ
 
 end AL
 
+/-- lexicographic order on `(registration id, height / timestamp id)` — the byte order of the store keys -/
+def pairLt (a b : Nat × Nat) : Bool := decide (a.1 < b.1) || (decide (a.1 = b.1) && decide (a.2 < b.2))
+
+/-- insertion into a record list kept in ascending store-key order (replaces the entry with the same key) -/
+def insertRec {ν : Type} : List ((Nat × Nat) × ν) → (Nat × Nat) → ν → List ((Nat × Nat) × ν)
+  | [], x, w => [(x, w)]
+  | (k, v) :: m, x, w =>
+    if k = x then (k, w) :: m else if pairLt x k then (x, w) :: (k, v) :: m else (k, v) :: insertRec m x w
+
 /-- insertion sort on naturals (structural, so that concrete instances reduce in the kernel) -/
 def insertLe (x : Nat) : List Nat → List Nat
   | [] => [x]
